@@ -608,7 +608,14 @@ class Unit:
 
     # -- template driver -------------------------------------------------------
     def generate(self):
-        lines = self.tpl
+        # @include FILE (same directory): textual splice, one level deep is enough
+        lines = []
+        for ln in self.tpl:
+            if ln.startswith('@include '):
+                inc = os.path.join(self.dir, ln.split(None, 1)[1].strip())
+                lines.extend(open(inc, encoding='utf-8').read().split('\n'))
+            else:
+                lines.append(ln)
         i = 0
         n = len(lines)
         cur_impl = None
